@@ -84,6 +84,9 @@ def main(argv=None):
     t0 = time.time()
     mod = importlib.import_module("props." + prop.lower())
     jobs = mod.plan(a.tier)
+    import glob
+    for old in glob.glob(os.path.join(runner.REPLAY_DIR, prop, "*.json")):
+        os.unlink(old)  # replay files of earlier runs are stale
     if a.only:
         jobs = [(h, o) for h, o in jobs if a.only in h.name]
     for h, o in jobs:
